@@ -46,18 +46,24 @@ int main(int argc, char** argv) {
             if (buckets.count(b)) keys.push_back(k);
         }
         std::vector<Unit> cat;
-        for (U64 k : keys)
+        size_t keyNo = 0;
+        for (U64 k : keys) {
+            // every sixth key is only ever stored with the empty move (fail-low / stand-pat stores of the search): insert() keeps the move
+            // of an entry it overwrites only if that entry belongs to the SAME key, so a hit for such a key must carry the empty move
+            const bool quietKey = (keyNo++ % 6) == 5;
             for (int v = 0; v < 6; v++) {
                 Unit u;
                 u.key = k;
                 u.from = rnd.nextInt(64); do { u.to = rnd.nextInt(64); } while (u.to == u.from);
                 u.promo = rnd.nextInt(3) == 0 ? 2 + rnd.nextInt(4) : 0;
+                if (quietKey) { u.from = 0; u.to = 0; u.promo = 0; }
                 u.score = rnd.nextInt(20000) - 10000;        // non-mate scores: no ply shift involved
                 u.depth = rnd.nextInt(300);
                 u.type = 1 + rnd.nextInt(3);
                 u.eval = rnd.nextInt(30000) - 15000;
                 cat.push_back(u);
             }
+        }
         os << "{\"e\":\"Meta\",\"check\":\"C08\",\"mode\":\"hammer\",\"threads\":" << nThreads << ",\"entries\":" << entries << "}\n";
         os << "{\"e\":\"Units\",\"units\":[";
         for (size_t i = 0; i < cat.size(); i++) os << (i ? "," : "") << unitJ(cat[i]);
